@@ -1159,6 +1159,9 @@ func cleanupRace(m *meta, rng *rand.Rand, round int) {
 	time.Sleep(time.Millisecond)
 	if lost > 0 || bad.Load() > 0 {
 		m.violate("C05", fmt.Sprintf("%s: a key rewritten with a 1 h TTL while Cleanup was sweeping was lost %d times and reported expired %d times (Cleanup removes only expired entries)", ctx, lost, bad.Load()), ctx)
+		if bad.Load() > 0 {
+			m.violate("C06", fmt.Sprintf("%s: a live entry, rewritten with a 1 h TTL while Cleanup was sweeping, was reported to the listener as expired %d times (reason and value must be those of an entry that really left for that reason)", ctx, bad.Load()), ctx)
+		}
 	}
 	c.Close()
 	m.count("cleanup_race_rounds")
